@@ -313,7 +313,7 @@ def generate(seed, tier, opts):
                             "donor": rng.randrange(npts), "nseed": rng.randrange(10**6)})
             if v > 0 and rng.random() < 0.3:
                 if rng.random() < 0.4:
-                    ops.append({"op": "starve", "maxiter": rng.randint(1, 4)})
+                    ops.append({"op": "starve", "maxiter": rng.randint(2, 5)})
                 else:
                     ops.append({"op": "abort", "frac": round(rng.uniform(0.05, 0.95), 4)})
             ops.append({"op": "run_model"})
@@ -745,7 +745,7 @@ def _exec_api(case, res, log, probe, violation, check_state, check_round_trip, r
             for path in model.coupled:
                 s_ = model.prob.model._get_subsystem(path).nonlinear_solver
                 saved.append((s_, s_.options["maxiter"]))
-                s_.options["maxiter"] = int(op["maxiter"])
+                s_.options["maxiter"] = max(2, int(op["maxiter"]))
             st = _run(model, res, "starve")
             for s_, mi in saved:
                 s_.options["maxiter"] = mi
